@@ -228,8 +228,8 @@ def check_reject(case, ctx):
 def s_intdtype(draw):
     """integer-valued barcodes in the integer dtypes users hold them in (8-bit image filtrations give uint8); one bar may be reversed"""
     n = draw(st.integers(1, 6))
-    lo = draw(st.sampled_from([0, 0, -100, -20000]))
-    span = {0: 250, -100: 200, -20000: 40000}[lo]
+    lo = draw(st.sampled_from([0, 0, -100, -20000, 2 ** 60, -(2 ** 61)]))      # the last two: 64-bit integers beyond 2**53 (e.g. nanosecond time stamps)
+    span = {0: 250, -100: 200, -20000: 40000, 2 ** 60: 1000, -(2 ** 61): 1000}[lo]
     bars = []
     for _ in range(n):
         b = lo + draw(st.integers(0, span - 2))
@@ -244,7 +244,7 @@ def s_intdtype(draw):
 def check_intdtype(case, ctx):
     bars = case["ibars"]
     flat = [v for q in bars for v in q]
-    dt = next(t for t in (np.uint8, np.int8, np.uint16, np.int16, np.int32) if np.iinfo(t).min <= min(flat) and max(flat) <= np.iinfo(t).max)
+    dt = next(t for t in (np.uint8, np.int8, np.uint16, np.int16, np.int32, np.int64) if np.iinfo(t).min <= min(flat) and max(flat) <= np.iinfo(t).max)
     arr = np.array(bars, dtype=dt)
     n = len(bars)
     normalize = case["normalize"] and n >= 2
@@ -257,7 +257,7 @@ def check_intdtype(case, ctx):
         return
     out = ctx.call(persistent_entropy, arr, normalize=normalize)
     e = float(out[0])
-    ref = ref_entropy([[float(b), float(d)] for b, d in bars], normalize)
+    ref = ref_entropy([[0.0, float(d - b)] for b, d in bars], normalize)         # lengths taken exactly, in integer arithmetic
     ctx.require(abs(e - ref) <= tol(n), "value_integer_dtype", lambda: "entropy %r, Shannon formula %r; barcode %s as %s" % (e, ref, bars, np.dtype(dt).name))
 
 
